@@ -308,6 +308,25 @@ def build_adapter(rules, order, strict, merge, late=0):
             # the method set in any iterable spelling (list, tuple, set, one-shot iterators)
             ms = (list, tuple, frozenset, iter, lambda m: (x for x in m), lambda m: map(str, m))[(len(rl) + len(ms) + i) % 6](ms)
         rl.append(Rule(R.rule_str(r), endpoint=r["ep"], methods=ms, **kw))
+    if late == "inquisitive-factory":
+        # history / re-entrancy: the rules arrive through a factory that looks at the map while it hands them out
+        # (Map.iter_rules() / is_endpoint_expecting() sort the map as a side effect), on a map that is already in use
+        from werkzeug.routing import RuleFactory
+
+        class Inquisitive(RuleFactory):
+            def get_rules(self, map_):
+                for r_ in rl[1:]:
+                    yield r_
+                    list(map_.iter_rules())
+
+        m = Map(rl[:1], strict_slashes=strict, merge_slashes=merge)
+        ad = m.bind("h.com")
+        try:
+            ad.match("/__warm-up__", method="GET")
+        except Exception:  # noqa: BLE001
+            pass
+        m.add(Inquisitive())
+        return ad
     if late == "copies":
         # history: the rules have served another map before (bound, compiled, matched against) whose merge_slashes is the
         # opposite; this map is made from their copies (what Submount / Subdomain / EndpointPrefix do with Rule.empty())
@@ -369,7 +388,11 @@ def check_map(rec, spy, rng, cfg, rules, strict, merge):
             if not late and rng.random() < 0.2 and all(r.get("merge") is None for r in rules):
                 late = "copies"  # (a copy keeps no per-rule merge_slashes, so only rules that leave it to the map)
             ad = build_adapter(rules, order, strict, merge, late)
-            if late == "copies":
+            if not late and n >= 2 and rng.random() < 0.12:
+                late = "inquisitive-factory"
+            if late == "inquisitive-factory":
+                rec.observe("maps_filled_by_a_factory_that_inspects_the_map")
+            elif late == "copies":
                 rec.observe("maps_made_of_copies_of_rules_bound_elsewhere")
             elif late:
                 rec.observe("maps_extended_after_first_use")
